@@ -21,7 +21,13 @@ def run(ctx, rep):
                "threading.Lock.release() on a held lock does not raise",
                "interleavings themselves are not enumerated (DESIGN section 4)")
 
-    f = ctx.func(K.CONN + "._send")
+    # the write layer: the one Connection method that writes the channel (named _send on the pinned tree)
+    conn = ctx.cls(K.CONN)
+    writers = [m for m in conn.methods.values() if A.find_calls(m.node, "self._channel.send")]
+    if len(writers) != 1:
+        raise AnalysisError("expected exactly one Connection method writing self._channel.send, found %s"
+                            % [w.name for w in writers])
+    f = writers[0]
     g = ctx.cfg(f)
     rep.analysed(f, g)
     fn = f.node
@@ -35,7 +41,7 @@ def run(ctx, rep):
             for it in w.items:
                 fld = K.self_attr(it.context_expr)
                 if fld and "lock" in fld.lower():
-                    rep.ob("R12.5", "Connection._send: acquisition of %s" % fld, False,
+                    rep.ob("R12.5", "Connection send layer: acquisition of %s" % fld, False,
                            "the send lock is taken with a blocking `with` statement; a send re-entered from a "
                            "finalizer on the same thread deadlocks", ctx.loc(w))
                     return
@@ -86,7 +92,7 @@ def run(ctx, rep):
 
     # ---- R12.5
     for fld, c in acq:
-        rep.ob("R12.5", "Connection._send: acquisition of %s" % fld, K.nonblocking_acquire(c),
+        rep.ob("R12.5", "Connection send layer: acquisition of %s" % fld, K.nonblocking_acquire(c),
                "acquire(...) must be non-blocking: a send re-entered from a finalizer while this thread holds the "
                "lock would otherwise wait for itself" if not K.nonblocking_acquire(c) else
                "acquire is called with blocking=False", ctx.loc(c), kind="site")
@@ -117,14 +123,14 @@ def run(ctx, rep):
             if p:
                 bad = p
                 break
-        rep.ob("R12.1", "Connection._send: acquire at `%s` released on every exit" % A.norm(n.ast), bad is None,
+        rep.ob("R12.1", "Connection send layer: acquire at `%s` released on every exit" % A.norm(n.ast), bad is None,
                "every path from the successful acquire to an exit (normal or exceptional) passes through release()"
                if bad is None else "a path leaves _send with the send lock still held",
                ctx.loc(n), witness=ctx.path(bad) if bad else None)
     acq_edge_set = {(n.id, lab) for n, lab in acq_edges}
     for r in rel_nodes:
         p = Q.find_path_ef(g.entry, lambda x: x is r, lambda a, b, l: (a.id, l) not in acq_edge_set)
-        rep.ob("R12.1", "Connection._send: release (copy %s) only after a successful acquire" % (r.cont or "plain"),
+        rep.ob("R12.1", "Connection send layer: release (copy %s) only after a successful acquire" % (r.cont or "plain"),
                p is None,
                "release() is reachable only through the acquired edge" if p is None else
                "release() is reachable without having acquired the lock", ctx.loc(r),
@@ -132,7 +138,7 @@ def run(ctx, rep):
 
     # ---- R12.2 who-may-write
     for s in send_nodes:
-        rep.ob("R12.2", "Connection._send: `%s` under the send lock" % A.norm(s.ast), s in held,
+        rep.ob("R12.2", "Connection send layer: `%s` under the send lock" % A.norm(s.ast), s in held,
                "the transport write lies in the acquire->release region" if s in held else
                "the transport is written without holding the send lock", ctx.loc(s))
     outside = []
@@ -149,7 +155,7 @@ def run(ctx, rep):
     dom = Q.dominators(g)
     for a in acq_nodes:
         ok = any(x.id in dom[a.id] for x in app_nodes)
-        rep.ob("R12.3", "Connection._send: enqueue dominates the try-lock `%s`" % A.norm(a.ast), ok,
+        rep.ob("R12.3", "Connection send layer: enqueue dominates the try-lock `%s`" % A.norm(a.ast), ok,
                "the message is appended to the queue before any attempt to take the lock" if ok else
                "the lock can be tried before the message has been enqueued (a failed try-lock then loses it)",
                ctx.loc(a))
@@ -171,7 +177,7 @@ def run(ctx, rep):
             return False
         return True
     p = Q.find_path_ef(g.entry, lambda x: x is g.exit, edge_ok)
-    rep.ob("R12.3", "Connection._send: normal return only after queue-empty-outside-lock or failed try-lock",
+    rep.ob("R12.3", "Connection send layer: normal return only after queue-empty-outside-lock or failed try-lock",
            p is None,
            "every normal exit is preceded by observing the queue empty while not holding the lock, or by a failed "
            "try-lock (whose holder re-checks after releasing)" if p is None else
@@ -182,7 +188,7 @@ def run(ctx, rep):
         if r.cont == "exc":
             continue
         p = Q.find_path_ef(r, lambda x: x is g.exit, edge_ok)
-        rep.ob("R12.3", "Connection._send: queue re-checked after release (copy %s)" % (r.cont or "plain"), p is None,
+        rep.ob("R12.3", "Connection send layer: queue re-checked after release (copy %s)" % (r.cont or "plain"), p is None,
                "from release() every path to the normal exit re-tests the queue outside the lock" if p is None else
                "after release() the function can return without re-testing the queue",
                ctx.loc(r), witness=ctx.path(p) if p else None)
@@ -197,7 +203,7 @@ def run(ctx, rep):
             p = Q.find_path_ef(starts, lambda x: x is pn,
                                lambda a, b, l: l != "exc" and (a.id, l) not in inside_nonempty, skip_first=False)
         ok = ok_region and p is None
-        rep.ob("R12.3", "Connection._send: dequeue `%s` guarded by a non-emptiness test under the lock" % A.norm(pn.ast),
+        rep.ob("R12.3", "Connection send layer: dequeue `%s` guarded by a non-emptiness test under the lock" % A.norm(pn.ast),
                ok, "pop happens under the lock after the queue was seen non-empty under the same lock" if ok else
                ("the queue is popped without holding the send lock" if not ok_region else
                 "the queue can be popped under the lock without having been seen non-empty (another consumer may "
@@ -227,7 +233,7 @@ def run(ctx, rep):
                 else:
                     cons.add("other")
     fifo = (prod == {"back"} and cons == {"front"}) or (prod == {"front"} and cons == {"back"})
-    rep.ob("R12.4", "Connection._send: queue order", fifo,
+    rep.ob("R12.4", "Connection send layer: queue order", fifo,
            "producer end %s / consumer end %s: first in, first out" % (sorted(prod), sorted(cons)) if fifo else
            "producer end %s / consumer end %s is not FIFO: messages of one thread can leave out of order"
            % (sorted(prod), sorted(cons)), ctx.loc(pop_nodes[0]), kind="site")
@@ -277,21 +283,43 @@ def run(ctx, rep):
                                        or A.find_calls(c.args[0], "self.%s.popleft" % queue)):
                 ok = True
                 why = "argument is the dequeue expression itself"
-            rep.ob("R12.6", "Connection._send: the packet written is the one just dequeued", ok,
+            rep.ob("R12.6", "Connection send layer: the packet written is the one just dequeued", ok,
                    ("what is sent is exactly the item popped under the lock; " if ok else
                     "the packet written is not (only) the item dequeued under the lock - messages can be "
                     "duplicated, dropped or reordered; ") + why, ctx.loc(s))
-    # what is enqueued is the encoding of this call's (msg, seq, args)
+    # what is enqueued is an encoded message: brine.dump(...) here, or the data parameter which every caller
+    # fills with the result of brine.dump
+    prm = A.params(fn)
     for a in app_nodes:
         for c in A.calls(a.ast):
             if isinstance(c.func, ast.Attribute) and c.func.attr in ("append", "appendleft", "insert") and c.args:
                 v = c.args[-1]
                 ok = False
+                why = "the enqueued value is not the encoding of a message"
                 if isinstance(v, ast.Name):
                     defs = rd.at(a, v.id)
-                    ok = bool(defs) and all(d != "param" and A.find_calls(d.ast, "brine.dump") for d in defs)
+                    if defs and all(d != "param" and A.find_calls(d.ast, "brine.dump") for d in defs):
+                        ok = True
+                        why = "the enqueued value is the result of brine.dump for this call"
+                    elif defs == {"param"} and v.id in prm:
+                        idx = prm.index(v.id) - 1
+                        sites = ctx.call_sites("self." + f.name)
+                        good = 0
+                        for fu, call in sites:
+                            arg = call.args[idx] if len(call.args) > idx else None
+                            enc = arg is not None and bool(A.find_calls(arg, "brine.dump"))
+                            if not enc and isinstance(arg, ast.Name) and fu is not None:
+                                gg = ctx.cfg(fu)
+                                rdd = Q.ReachingDefs(gg)
+                                nodes = [x for x in gg.live if x.ast is not None and x.kind in ("stmt", "test")
+                                         and A.contains(x.ast, call)]
+                                dd = rdd.at(nodes[0], arg.id) if nodes else set()
+                                enc = bool(dd) and all(d != "param" and A.find_calls(d.ast, "brine.dump") for d in dd)
+                            good += 1 if enc else 0
+                        ok = bool(sites) and good == len(sites)
+                        why = "%d call site(s) of %s, all passing the result of brine.dump" % (len(sites), f.name) if ok \
+                            else "a caller of %s passes something that is not an encoded message" % f.name
                 elif A.find_calls(v, "brine.dump"):
                     ok = True
-                rep.ob("R12.6", "Connection._send: what is enqueued is this call's encoded message", ok,
-                       "the enqueued value is the result of brine.dump for this call" if ok else
-                       "the enqueued value is not the encoding produced by this call", ctx.loc(a))
+                    why = "the enqueued value is the result of brine.dump for this call"
+                rep.ob("R12.6", "Connection send layer: what is enqueued is an encoded message of the caller", ok, why, ctx.loc(a))
